@@ -382,6 +382,57 @@ fn reshape(doc: &Value, r: &mut Rng) -> Option<Value> {
     Some(out)
 }
 
+/// the document with one digest map given a digest under another algorithm name than the two the crate
+/// computes (added next to them, or one of them renamed) - `None` if the document has no digest map
+fn foreign_digest_name(doc: &Value, r: &mut Rng) -> Option<Value> {
+    fn find(v: &Value, cur: &mut Vec<String>, out: &mut Vec<Vec<String>>) {
+        match v {
+            Value::Object(m) => {
+                if !m.is_empty() && m.iter().all(|(k, x)| (k == "sha256" || k == "sha512") && x.is_string()) {
+                    out.push(cur.clone());
+                }
+                for (k, x) in m {
+                    cur.push(k.clone());
+                    find(x, cur, out);
+                    cur.pop();
+                }
+            }
+            Value::Array(xs) => {
+                for (i, x) in xs.iter().enumerate() {
+                    cur.push(i.to_string());
+                    find(x, cur, out);
+                    cur.pop();
+                }
+            }
+            _ => {}
+        }
+    }
+    let mut at = vec![];
+    find(doc, &mut vec![], &mut at);
+    if at.is_empty() {
+        return None;
+    }
+    let path = r.pick(&at).clone();
+    let mut d = doc.clone();
+    let mut node = &mut d;
+    for seg in &path {
+        node = match node {
+            Value::Array(xs) => xs.get_mut(seg.parse::<usize>().ok()?)?,
+            other => other.get_mut(seg.as_str())?,
+        };
+    }
+    let m = node.as_object_mut()?;
+    let name = *r.pick(&["sha1", "blake2b", "sha384", "SHA256", "md5", "sha3-256", ""]);
+    if r.chance(1, 2) {
+        m.insert(name.to_string(), Value::String("ab".repeat(20)));
+    } else {
+        let k = m.keys().next()?.clone();
+        let v = m.remove(&k)?;
+        m.insert(name.to_string(), v);
+    }
+    Some(d)
+}
+
 pub fn run(cfg: &Cfg) {
     let mut sink = Sink::new(&cfg.out);
     let mut r = Rng::new(cfg.seed);
@@ -405,6 +456,19 @@ pub fn run(cfg: &Cfg) {
         }
         if i % 5 == 0 {
             merge_case(&mut sink, &mut r);
+        }
+        // ---- digests under algorithm names the crate does not compute itself (another implementation's link
+        //      or statement): refused, or accepted and then written and read back like any other
+        if i % 3 == 1 {
+            if let Some(d) = foreign_digest_name(&naive, &mut r) {
+                statement_case(&mut sink, &mut model, &d, None, "foreign-digest-name");
+            }
+            if let Some(d) = foreign_digest_name(&v01, &mut r) {
+                statement_case(&mut sink, &mut model, &d, None, "foreign-digest-name");
+            }
+            if let Some(d) = foreign_digest_name(&pred, &mut r) {
+                predicate_case(&mut sink, &mut model, &d, "predicate-foreign-digest-name");
+            }
         }
         // ---- one string member holding a value of another shape
         if let Some(p) = reshape(&pred, &mut r) {
